@@ -18,8 +18,8 @@ pub const SPEC: PropSpec = PropSpec {
     required: &["roundtrips_ok", "types_seen_all", "configs_seen_all36", "sweep.cases", "values_with_markup_chars", "rows_seen"],
     run,
     replay,
-    thorough_layers: &[],
-    quick_layers: &[],
+    thorough_layers: &[("novl", 50)],
+    quick_layers: &[("novl", 50)],
     post: Some(post),
 };
 
